@@ -175,7 +175,7 @@ fn check_chain(ctx: &Ctx, rt: &tokio::runtime::Runtime, fac: &versatiles_pipelin
 
 pub fn run(ctx: Arc<Ctx>) {
 	ctx.rule(
-		"filter_zoom: all 81 (min,max) over {absent,0,1,2,3,5,31,32,255}; filter_bbox: every valid box from the lon/lat alphabet of C15 (incl. points, slivers, antimeridian/pole touching) ; chains of 2 (all zoom x representative bbox, bbox x bbox) and 3 filters; \
+		"filter_zoom: all 81 (min,max) over {absent,0,1,2,3,5,31,32,255}; filter_bbox: every valid box from the lon/lat alphabet of C15 (incl. points, slivers, antimeridian/pole touching) ; chains of 2 (all zoom x representative bbox, bbox x bbox; thorough: every 17th x every 17th box of the alphabet) and 3 filters; \
 		 sources: MemSource (full z0..4 + sparse z5 + both corners of z31), from_debug (generator, all coordinates), a real versatiles file; every coordinate z<=4 + sparse + corners probed by lookup, streams over whole levels. invalid arguments (reversed, out of range, 3/5 elements, nan, text, negative zoom) must be Err at build time. \
 		 oracle with a don't-care band of 1e-6 tile on geographic edges. non-trivial = chains that pass some but not all probe tiles",
 	);
@@ -235,6 +235,16 @@ pub fn run(ctx: Arc<Ctx>) {
 		for (j, b) in zooms.iter().enumerate() {
 			if (i + j) % ctx.tier.pick(5, 1) == 0 {
 				chains.push(vec![a.clone(), b.clone()]);
+			}
+		}
+	}
+	// thorough: chains of two arbitrary boxes of the alphabet (every 17th x every 17th), i.e. intersections of
+	// boxes that overlap, touch, nest or are disjoint in every combination
+	if ctx.tier == Tier::Thorough {
+		let sub: Vec<&Filter> = bboxes.iter().step_by(17).collect();
+		for a in &sub {
+			for b in &sub {
+				chains.push(vec![(*a).clone(), (*b).clone()]);
 			}
 		}
 	}
